@@ -1,4 +1,5 @@
 import Cvise.Proofs.DriverSim
+import Cvise.Proofs.DriverLog
 /-! C02 for whole runs: with well-behaved passes the files, the replay table and the control flow of `run_pass` /
     `reduce` do not depend on the schedule oracle. -/
 namespace Cvise.D
@@ -15,7 +16,8 @@ def GoodPass (cfg : Cfg) (W : World C) (P : PassI C σ) : Prop :=
         (envOf W P disk k (disk.getD k default) s rid j).pr = .stop)
 
 /-- what the control flow depends on -/
-def Sim (x y : St C) : Prop := x.disk = y.disk ∧ x.cache = y.cache ∧ x.leftover = y.leftover
+def Sim (x y : St C) : Prop :=
+  x.disk = y.disk ∧ x.cache = y.cache ∧ x.leftover = y.leftover ∧ commits x.side.log = commits y.side.log
 
 def SimR (r r' : LRes C) : Prop :=
   match r, r' with
@@ -24,6 +26,11 @@ def SimR (r r' : LRes C) : Prop :=
   | _, _ => False
 
 theorem SimR.refl_of (x y : St C) (a : Nat) (h : Sim x y) : SimR (.inl (x, a)) (.inl (y, a)) := ⟨h, rfl⟩
+
+theorem commits_commit (g : Side C) (tested : List (Ev C)) (hT : commits tested = []) (p k : Nat) (c : C) :
+    commits ((g.log ++ tested) ++ [Ev.commit p k c]) = commits g.log ++ [(p, k, c)] := by
+  rw [commits_append, commits_append, hT]
+  simp [commits]
 
 theorem fileLoop_schedule_irrelevant (cfg : Cfg) (W : World C) (P : PassI C σ) (hg : GoodPass cfg W P)
     (d d' : Sched) (k startSize : Nat) :
@@ -34,11 +41,11 @@ theorem fileLoop_schedule_irrelevant (cfg : Cfg) (W : World C) (P : PassI C σ) 
   | zero => intro rid s succ x y h; simp only [fileLoop]; exact ⟨h, rfl⟩
   | succ f ih =>
     intro rid s succ x y h
-    obtain ⟨h1, h2, h3⟩ := h
+    obtain ⟨h1, h2, h3, h4⟩ := h
     simp only [fileLoop]
     rw [← h3]
     by_cases hl : x.leftover = true
-    · simp only [hl, if_true]; exact ⟨rfl, h1, h2, h3⟩
+    · simp only [hl, if_true]; exact ⟨rfl, h1, h2, h3, h4⟩
     · simp only [hl, Bool.false_eq_true, if_false]
       rw [← h1]
       obtain ⟨m, hm0, hmf, hmore, htame, hstop⟩ := hg x.disk k s rid
@@ -48,47 +55,80 @@ theorem fileLoop_schedule_irrelevant (cfg : Cfg) (W : World C) (P : PassI C σ) 
         (envOf W P x.disk k (x.disk.getD k default) s rid) (d rid) m hm0 htame hstop (cfg.giveup + 1000) hmf x.side
       obtain ⟨g2, e2⟩ := round_winner_eq_seq cfg W.size P.key (x.disk.getD k default)
         (envOf W P x.disk k (x.disk.getD k default) s rid) (d' rid) m hm0 htame hstop (cfg.giveup + 1000) hmf y.side
+      have c1 : commits g1.log = commits x.side.log := by
+        have := roundLoop_commits cfg W.size P.key (x.disk.getD k default) (envOf W P x.disk k (x.disk.getD k default) s rid)
+          (fun t => decide (t < m)) (d rid) (cfg.giveup + 1000) 0 [] x.side {}
+        rw [e1] at this; exact this
+      have c2 : commits g2.log = commits y.side.log := by
+        have := roundLoop_commits cfg W.size P.key (x.disk.getD k default) (envOf W P x.disk k (x.disk.getD k default) s rid)
+          (fun t => decide (t < m)) (d' rid) (cfg.giveup + 1000) 0 [] y.side {}
+        rw [e2] at this; exact this
+      have c12 : commits g1.log = commits g2.log := by rw [c1, c2, h4]
       rw [e1, e2]
       cases hw : R.seqFirst (fun i => vd cfg W.size (x.disk.getD k default) (envOf W P x.disk k (x.disk.getD k default) s rid i)) m 0 with
-      | none => exact ⟨⟨by simp, by simp [h2], by simp [h3]⟩, rfl⟩
+      | none => exact ⟨⟨by simp, by simp [h2], by simp [h3], by simpa using c12⟩, rfl⟩
       | some i =>
         simp only
+        have key : ∀ (t : List (Ev C)) (c : Ev C) (p q : Nat) (cc : C), c = Ev.commit p q cc → commits t = [] →
+            commits ((g1.log ++ t) ++ [c]) = commits ((g2.log ++ t) ++ [c]) := by
+          intro t c p q cc hc ht
+          subst hc
+          rw [commits_commit g1 t ht, commits_commit g2 t ht, c12]
+        have leaf : ∀ (lo : Bool), Sim
+            ({ commitSt x k (envOf W P x.disk k (x.disk.getD k default) s rid i).cand
+                { g1 with worked := bump g1.worked g1.curPass,
+                          log := g1.log ++ (match (envOf W P x.disk k (x.disk.getD k default) s rid i).exit with
+                            | some ex => [Ev.tested (x.disk.set k (envOf W P x.disk k (x.disk.getD k default) s rid i).cand) ex]
+                            | none => []) ++ [Ev.commit P.key k (envOf W P x.disk k (x.disk.getD k default) s rid i).cand] } with leftover := lo } : St C)
+            ({ commitSt y k (envOf W P x.disk k (x.disk.getD k default) s rid i).cand
+                { g2 with worked := bump g2.worked g2.curPass,
+                          log := g2.log ++ (match (envOf W P x.disk k (x.disk.getD k default) s rid i).exit with
+                            | some ex => [Ev.tested (x.disk.set k (envOf W P x.disk k (x.disk.getD k default) s rid i).cand) ex]
+                            | none => []) ++ [Ev.commit P.key k (envOf W P x.disk k (x.disk.getD k default) s rid i).cand] } with leftover := lo } : St C) := by
+          intro lo
+          refine ⟨by simp [commitSt, h1], by simp [commitSt, h2], by simp, ?_⟩
+          simp only [commitSt]
+          apply key _ _ P.key k _ rfl
+          split <;> simp [commits]
         split
-        · exact ⟨⟨by simp [commitSt, h1], by simp [commitSt, h2], by simp⟩, rfl⟩
+        · exact ⟨leaf _, rfl⟩
         · split
-          · exact ⟨⟨by simp [commitSt, h1], by simp [commitSt, h2], by simp [commitSt, h3]⟩, rfl⟩
+          · have := leaf x.leftover
+            exact ⟨⟨this.1, this.2.1, by simp [commitSt, h3], this.2.2.2⟩, rfl⟩
           · split
-            · exact ⟨⟨by simp [commitSt, h1], by simp [commitSt, h2], by simp [commitSt, h3]⟩, rfl⟩
-            · exact ih _ _ _ _ _ ⟨by simp [commitSt, h1], by simp [commitSt, h2], by simp [commitSt, h3]⟩
-
+            · have := leaf x.leftover
+              exact ⟨⟨this.1, this.2.1, by simp [commitSt, h3], this.2.2.2⟩, rfl⟩
+            · have := leaf x.leftover
+              exact ih _ _ _ _ _ ⟨this.1, this.2.1, by simp [commitSt, h3], this.2.2.2⟩
 
 theorem fileStep_schedule_irrelevant (cfg : Cfg) (W : World C) (P : PassI C σ) (hg : GoodPass cfg W P)
     (d d' : Sched) (fuel : Nat) (acc acc' : LRes C) (k : Nat) (h : SimR acc acc') :
     SimR (fileStep cfg W d P fuel acc k) (fileStep cfg W d' P fuel acc' k) := by
   unfold fileStep
   rcases acc with ⟨x, a⟩ | ⟨e, x⟩ <;> rcases acc' with ⟨y, b⟩ | ⟨e', y⟩ <;> simp only [SimR] at h
-  · obtain ⟨⟨h1, h2, h3⟩, hab⟩ := h
+  · obtain ⟨⟨h1, h2, h3, h4⟩, hab⟩ := h
     subst hab
     simp only
     rw [← h1, ← h2]
     split
-    · exact ⟨⟨h1, h2, h3⟩, rfl⟩
+    · exact ⟨⟨h1, h2, h3, h4⟩, rfl⟩
     · split
-      · exact ⟨⟨by simp [h1], by simp [h2], by simp [h3]⟩, rfl⟩
+      · refine ⟨⟨by simp [h1], by simp [h2], by simp [h3], ?_⟩, rfl⟩
+        simp only [commits_append, h4]
       · have hn : SimR (newLoop cfg W d P k fuel a x (x.disk.getD k default)) (newLoop cfg W d' P k fuel a y (x.disk.getD k default)) := by
           unfold newLoop
           split
-          · exact ⟨⟨h1, h2, h3⟩, rfl⟩
-          · exact fileLoop_schedule_irrelevant cfg W P hg d d' k _ fuel a _ 0 x y ⟨h1, h2, h3⟩
+          · exact ⟨⟨h1, h2, h3, h4⟩, rfl⟩
+          · exact fileLoop_schedule_irrelevant cfg W P hg d d' k _ fuel a _ 0 x y ⟨h1, h2, h3, h4⟩
         generalize newLoop cfg W d P k fuel a x (x.disk.getD k default) = r at hn ⊢
         generalize newLoop cfg W d' P k fuel a y (x.disk.getD k default) = r' at hn ⊢
         rcases r with ⟨x1, a1⟩ | ⟨e1, x1⟩ <;> rcases r' with ⟨y1, b1⟩ | ⟨e2, y1⟩ <;> simp only [SimR] at hn
-        · obtain ⟨⟨g1, g2, g3⟩, hab⟩ := hn
+        · obtain ⟨⟨g1, g2, g3, g4⟩, hab⟩ := hn
           subst hab
           simp only
           split
-          · exact ⟨⟨g1, by simp [g1, g2], g3⟩, rfl⟩
-          · exact ⟨⟨g1, g2, g3⟩, rfl⟩
+          · exact ⟨⟨g1, by simp [g1, g2], g3, g4⟩, rfl⟩
+          · exact ⟨⟨g1, g2, g3, g4⟩, rfl⟩
         · exact hn
   · exact h
 
@@ -96,18 +136,18 @@ theorem runPass_schedule_irrelevant (cfg : Cfg) (W : World C) (P : PassI C σ) (
     (d d' : Sched) (order : List Nat) (fuel rid : Nat) (x y : St C) (h : Sim x y) :
     SimR (runPass cfg W d P order fuel rid x) (runPass cfg W d' P order fuel rid y) := by
   unfold runPass
-  obtain ⟨h1, h2, h3⟩ := h
+  obtain ⟨h1, h2, h3, h4⟩ := h
   simp only
   rw [← h1]
   split
-  · exact ⟨rfl, ⟨by simp, by simp [h2], by simp⟩⟩
+  · exact ⟨rfl, ⟨by simp, by simp [h2], by simp, by simpa using h4⟩⟩
   · have : ∀ (order : List Nat) (acc acc' : LRes C), SimR acc acc' →
         SimR (order.foldl (fileStep cfg W d P fuel) acc) (order.foldl (fileStep cfg W d' P fuel) acc') := by
       intro order
       induction order with
       | nil => intro acc acc' h; exact h
       | cons k ks ih => intro acc acc' h; exact ih _ _ (fileStep_schedule_irrelevant cfg W P hg d d' fuel acc acc' k h)
-    exact this order _ _ ⟨⟨by simp, by simp [h2], by simp⟩, rfl⟩
+    exact this order _ _ ⟨⟨by simp, by simp [h2], by simp, by simpa using h4⟩, rfl⟩
 
 theorem runPasses_schedule_irrelevant (cfg : Cfg) (W : World C) (d d' : Sched) (orderOf : List C → List Nat) (fuel : Nat) :
     ∀ (ps : List (PassI C σ)), (∀ P ∈ ps, GoodPass cfg W P) → ∀ (acc acc' : LRes C), SimR acc acc' →
@@ -166,6 +206,6 @@ theorem reduce_schedule_irrelevant (cfg : Cfg) (W : World C) (d d' : Sched) (ord
   unfold reduce
   exact runPasses_schedule_irrelevant cfg W d d' orderOf fuel last (fun P h => hg P (Or.inr (Or.inr h))) _ _
     (mainLoop_schedule_irrelevant cfg W d d' orderOf fuel main (fun P h => hg P (Or.inr (Or.inl h))) _ _ _
-      (runPasses_schedule_irrelevant cfg W d d' orderOf fuel first (fun P h => hg P (Or.inl h)) _ _ ⟨⟨rfl, rfl, rfl⟩, rfl⟩))
+      (runPasses_schedule_irrelevant cfg W d d' orderOf fuel first (fun P h => hg P (Or.inl h)) _ _ ⟨⟨rfl, rfl, rfl, rfl⟩, rfl⟩))
 
 end Cvise.D
